@@ -44,6 +44,14 @@ def run(chk):
         elif p["run"]["maxdepth"] > len(p["ast"]["routines"]) + 1:
             chk.violation("c16:depth:seed%d" % p["seed"], "activation stack reached depth %d with %d program definitions"
                           % (p["run"]["maxdepth"], len(p["ast"]["routines"])), {"files": p["files"], "main": p["main"]})
+    # 3. reject side: every attempt at self-, forward- and mutual reference between definitions (TheoParse reference skeletons,
+    #    also spread over included files, with redefinitions of a name): the compiler's verdict must be TheoParse's
+    import parse
+    cases = parse.enumerate_cases(chk, 9 if chk.thorough else 8, "chunks", "refs", name="enum_refs")
+    cases = [c for c in cases if "run" in parse._seq(c["toks"])]
+    nref = parse.replay_verdicts(chk, th, cases, "c16:refs", chk.seed, split=True)
+    chk.cov["reference_skeletons"] = nref
+    chk.cov["reference_skeletons_rejected_by_spec"] = sum(1 for c in cases if not c["acc"] and not c["dup"])
     acc, nev = sem.validate(chk, progs)
     chk.cov["traces_validated_against_impl"] = acc
     chk.cov["trace_events"] = nev
@@ -55,7 +63,7 @@ def run(chk):
     chk.cov["rule"] = ("TheoSem (TLC, weak fairness) on generated WHILE/GOTO-free ASTs: <>Done, LoopCount (iterations = bound at entry, bodies "
                        "assign to their bound), DepthBound, CallsGoDown; the same sources compiled and stepped for real must produce exactly the "
                        "reference line events and halt (a timeout event has no explanation when the reference run ends); depth <= definitions+1 "
-                       "on every real run; reject side (self/forward/mutual references): see C04's static-rule skeletons, re-run here")
+                       "on every real run; reject side: TheoParse reference skeletons (definitions f, g with calls to f, g of several arities, redefinitions) to depth 8, spread over included files, verdicts compared")
     if loop_only:
         chk.sample({"files": loop_only[0]["files"], "vm_steps": loop_only[0].get("run", {}).get("steps")})
     log("C16: model %d states; %d real executions accepted" % (res.distinct, acc))
